@@ -42,6 +42,7 @@ class Part:
         shrink_quick=None,
         max_workers=None,
         min_nontrivial_frac=0.0,
+        min_per_shard=8,
         doc="",
     ):
         self.name = name
@@ -54,6 +55,7 @@ class Part:
         self.shrink_quick = shrink if shrink_quick is None else shrink_quick
         self.max_workers = max_workers
         self.min_nontrivial_frac = min_nontrivial_frac
+        self.min_per_shard = min_per_shard
         self.doc = doc
 
 
@@ -292,6 +294,19 @@ def shard_worker(prop_id, part_name, tier, seed, shard, nshards, n_examples, bud
                 except (herr.FailedHealthCheck, herr.Unsatisfiable, herr.InvalidArgument) as e:
                     res["harness_error"] = f"{type(e).__name__}: {e}"
                     break
+                except BaseException as e:  # noqa: BLE001
+                    # e.g. FlakyFailure when the wall-clock guard cut the confirming replay short:
+                    # the recorded failing case is still a real observation
+                    if state["target"] is not None and state["last"] is not None:
+                        excluded.add(state["target"])
+                        res["violations"].append(
+                            dict(sig=state["target"], detail=state["detail"], case=state["last"])
+                        )
+                        if time.time() > deadline:
+                            res["inconclusive"] = True
+                            break
+                        continue
+                    raise
         res["nontrivial"] = sorted(nontriv)
         res["classes"] = dict(classes)
         res["notes"] = notes
@@ -360,10 +375,12 @@ def run_property(prop_id, tier, seed, only_parts=None, n_scale=1.0):
     tasks = []
     for p in parts:
         n_total = p.quick if tier == "quick" else p.thorough
+        if n_total <= 0:
+            continue  # part not run in this tier
         n_total = max(1, int(n_total * n_scale))
         k = min(N_WORKERS, p.max_workers or N_WORKERS)
         if p.enumerate is None:
-            k = max(1, min(k, n_total // 8 or 1))
+            k = max(1, min(k, n_total // p.min_per_shard or 1))
         per = int(math.ceil(n_total / k))
         for shard in range(k):
             tasks.append((prop_id, p.name, tier, seed, shard, k, per, budget))
